@@ -15,6 +15,14 @@ def gen(rng):
             ins += ['UPD', 'KG ' + x('*'), 'RF 0 1', 'RF 0 0']
         elif kind < 0.8:    # rekey over a right set one member of which is unknown to the master key
             ins += [f"AT {d} {x('q')} {rng.choice('01')} -", 'RK ' + x('*'), 'RK ' + x(hist.unx(d) + '::q'), 'KG ' + x(hist.unx(d) + '::q'), 'PR ' + x('*')]
+        elif kind < 0.9:    # compound policies whose LAST operand fails, after a rotation: nothing may be pruned / rotated / issued
+            live = [l.split(' ') for l in scr[:i] if l.split(' ')[0] == 'AT']
+            if live:
+                a = rng.choice(live); good = hist.unx(a[1]) + '::' + hist.unx(a[2])
+                ins += ['RK ' + x(good), 'RK ' + x(good)]
+                for bad in (good + ' || ' + hist.unx(d) + '::zz', good + ' || Z::q', '(' + good + ') || (' + good + ' && ' + hist.unx(d) + '::zz)'):
+                    ins += [rng.choice(['PR ', 'RK ', 'KG ']) + x(bad)]
+                ins += ['PR ' + x(good + ' || ' + hist.unx(d) + '::zz'), 'RF 0 1', 'DE 0 0']
         else:               # key generation / encapsulation for something not yet made effective
             ins += [f"AT {d} {x('q')} 1 -", 'KG ' + x(hist.unx(d) + '::q'), 'EN 999 ' + x(hist.unx(d) + '::q'), 'RF 999 0']
         scr = scr[:i] + ins + scr[i:]
